@@ -393,6 +393,33 @@ pub fn drive_dec<T: Reg + Encode + Decode>(ctx: &mut Ctx, mem_tracking: bool) {
 	if prop == "C14" || prop == "C03" {
 		inputs.extend(prefixes::<T>(&mut g, 2 * ctx.scale, 48));
 	}
+	if prop == "C12" || prop == "C09" {
+		// values whose heap data exceeds one 16 KiB preallocation chunk / one tree node
+		let d = T::descr();
+		let kind = d.get("k").and_then(|k| k.as_str()).unwrap_or("");
+		let lens: Vec<usize> = match kind {
+			"seq" => {
+				let sz = d.get("t").and_then(|t| t.get("sz")).and_then(|s| s.as_u64()).unwrap_or(1) as usize;
+				let heap = d.get("c").and_then(|c| c.as_str()) == Some("heap");
+				let cheap = matches!(d.get("t").and_then(|t| t.get("k")).and_then(|k| k.as_str()), Some("int") | Some("bool") | Some("unit"));
+				if heap || !cheap { vec![40, 300] } else {
+					let w = if sz == 0 { 16384 } else { 16384 / sz };
+					if ctx.tier == "thorough" { vec![w - 1, w, w + 1, 2 * w + 1, 3 * w + 5] } else { vec![w + 1, 2 * w + 3] }
+				}
+			},
+			"str" => vec![16385, 40000],
+			"bits" => vec![16384 * 8 + 9],
+			"set" | "map" => if ctx.tier == "thorough" { vec![10, 11, 12, 19, 20, 24, 29, 31, 40, 100, 240] } else { vec![12, 24, 29, 100] },
+			_ => vec![],
+		};
+		for l in lens {
+			if let Some(v) = T::gen_len(&mut g, l) {
+				if let Ok(b) = guarded(|| v.encode()) {
+					inputs.push(("big", b, false));
+				}
+			}
+		}
+	}
 	let stacks = all_stacks(u32::MAX);
 	for (label, inp, is_prefix) in inputs {
 		let mut m = header::<T>("dec");
@@ -406,6 +433,9 @@ pub fn drive_dec<T: Reg + Encode + Decode>(ctx: &mut Ctx, mem_tracking: bool) {
 		match prop.as_str() {
 			"C03" => {
 				runs.push(run_json::<T>("slice", &[], &inp, 0));
+				runs.push(run_json::<T>("unk", &[], &inp, 0));
+				#[cfg(feature = "bytes")]
+				runs.push(run_json::<T>("bytes", &[], &inp, 0));
 			},
 			"C08" => {
 				// every back-end bare, plus every wrapper stack on a rotating back-end
@@ -481,3 +511,151 @@ pub fn drive_dec<T: Reg + Encode + Decode>(ctx: &mut Ctx, mem_tracking: bool) {
 
 /// consume a little of the input first so that positions are not always zero
 pub fn _unused(_: &mut dyn Input) {}
+
+// ------------------------------------------------------------------ C04: compact integers
+
+pub mod compact {
+	use super::*;
+	use parity_scale_codec::{Compact, CompactLen, CompactRef};
+
+	macro_rules! cenc {
+		($ctx:expr, $t:ty, $w:expr, $v:expr) => {{
+			let v: $t = $v;
+			let r = guarded(|| {
+				let out = Compact(v).encode();
+				let clen = <Compact<$t> as CompactLen<$t>>::compact_len(&v);
+				let uenc = CompactRef(&v).using_encoded(|b| b.to_vec());
+				let mut to = Vec::new();
+				CompactRef(&v).encode_to(&mut to);
+				let sz = Compact(v).encoded_size();
+				let hint = Compact(v).size_hint();
+				(out, clen, uenc, to, sz, hint)
+			});
+			let rec = match r {
+				Ok((out, clen, uenc, to, sz, hint)) => json!({"k":"cenc","tn":concat!("Compact<", stringify!($t), ">"),"w":$w,"res":"ok",
+					"v":digits(v as u128, $w),"out":bytes_json(&out),"clen":clen,"uenc":bytes_json(&uenc),"to":bytes_json(&to),"size":sz,"hint":hint}),
+				Err(()) => json!({"k":"cenc","tn":concat!("Compact<", stringify!($t), ">"),"w":$w,"res":"panic","v":digits(v as u128, $w)}),
+			};
+			$ctx.emit(concat!("Compact<", stringify!($t), ">"), rec);
+		}};
+	}
+	macro_rules! cdec {
+		($ctx:expr, $t:ty, $w:expr, $inp:expr) => {{
+			let inp: &[u8] = $inp;
+			let mut s = inp;
+			let r = guarded(|| <Compact<$t>>::decode(&mut s));
+			let rec = match r {
+				Ok(Ok(c)) => json!({"k":"cdec","tn":concat!("Compact<", stringify!($t), ">"),"w":$w,"inp":bytes_json(inp),"res":"ok",
+					"v":digits(c.0 as u128, $w),"n":inp.len() - s.len()}),
+				Ok(Err(_)) => json!({"k":"cdec","tn":concat!("Compact<", stringify!($t), ">"),"w":$w,"inp":bytes_json(inp),"res":"err","v":[],"n":0}),
+				Err(()) => json!({"k":"cdec","tn":concat!("Compact<", stringify!($t), ">"),"w":$w,"inp":bytes_json(inp),"res":"panic","v":[],"n":0}),
+			};
+			$ctx.emit(concat!("Compact<", stringify!($t), ">"), rec);
+		}};
+	}
+
+	fn dec_all_widths(ctx: &mut Ctx, inp: &[u8]) {
+		cdec!(ctx, u8, 1, inp);
+		cdec!(ctx, u16, 2, inp);
+		cdec!(ctx, u32, 4, inp);
+		cdec!(ctx, u64, 8, inp);
+		cdec!(ctx, u128, 16, inp);
+	}
+	fn enc_width(ctx: &mut Ctx, w: usize, v: u128) {
+		match w {
+			1 => cenc!(ctx, u8, 1, v as u8),
+			2 => cenc!(ctx, u16, 2, v as u16),
+			4 => cenc!(ctx, u32, 4, v as u32),
+			8 => cenc!(ctx, u64, 8, v as u64),
+			_ => cenc!(ctx, u128, 16, v),
+		}
+	}
+	fn dec_width(ctx: &mut Ctx, w: usize, inp: &[u8]) {
+		match w {
+			1 => cdec!(ctx, u8, 1, inp),
+			2 => cdec!(ctx, u16, 2, inp),
+			4 => cdec!(ctx, u32, 4, inp),
+			8 => cdec!(ctx, u64, 8, inp),
+			_ => cdec!(ctx, u128, 16, inp),
+		}
+	}
+
+	/// part: "exh" exhaustive u8/u16 values and all strings up to 2 bytes through every decoder;
+	/// "vec" vectors written by TLC (Gen_Compact); "rnd" random values and mutated strings
+	pub fn drive(ctx: &mut Ctx, part: &str) {
+		match part {
+			"exh" => {
+				for v in 0..=255u32 {
+					enc_width(ctx, 1, v as u128);
+				}
+				for v in 0..=65535u32 {
+					enc_width(ctx, 2, v as u128);
+				}
+				dec_all_widths(ctx, &[]);
+				for a in 0..=255u8 {
+					dec_all_widths(ctx, &[a]);
+				}
+				for a in 0..=255u8 {
+					for b in 0..=255u8 {
+						dec_all_widths(ctx, &[a, b]);
+					}
+				}
+				if ctx.tier == "thorough" {
+					for a in 0..=255u8 {
+						for b in 0..=255u8 {
+							for c in crate::mutate::BOUNDARY {
+								dec_all_widths(ctx, &[a, b, c]);
+							}
+						}
+					}
+				}
+			},
+			"vec" => {
+				let path = std::env::var("VECTORS").expect("VECTORS");
+				let text = std::fs::read_to_string(&path).expect("read vectors");
+				for line in text.lines() {
+					if line.trim().is_empty() { continue }
+					let j: Value = serde_json::from_str(line).expect("vector json");
+					let w = j["w"].as_u64().unwrap() as usize;
+					if j["kind"] == "val" {
+						let mut v: u128 = 0;
+						for (i, d) in j["v"].as_array().unwrap().iter().enumerate() {
+							v |= (d.as_u64().unwrap() as u128) << (8 * i);
+						}
+						enc_width(ctx, w, v);
+						// and the round trip of what the implementation produced
+						let out = match w { 1 => Compact(v as u8).encode(), 2 => Compact(v as u16).encode(), 4 => Compact(v as u32).encode(),
+							8 => Compact(v as u64).encode(), _ => Compact(v).encode() };
+						dec_width(ctx, w, &out);
+					} else {
+						let s: Vec<u8> = j["s"].as_array().unwrap().iter().map(|d| d.as_u64().unwrap() as u8).collect();
+						dec_width(ctx, w, &s);
+					}
+				}
+			},
+			_ => {
+				let mut g = ctx.rng_for("compact", 4);
+				let n = 4000 * ctx.scale;
+				for _ in 0..n {
+					for w in [1usize, 2, 4, 8, 16] {
+						let v = g.uint(8 * w as u32);
+						enc_width(ctx, w, v);
+						// decode the encoding under every width, with a tail
+						let mut out = Compact(v).encode();
+						if g.chance(1, 2) { out.push(g.byte()); }
+						dec_all_widths(ctx, &out);
+						// mutated / random strings
+						let mut m = out.clone();
+						match g.below(4) {
+							0 => { if !m.is_empty() { let i = g.below(m.len()); m[i] = g.byte(); } },
+							1 => { let cut = g.below(m.len() + 1); m.truncate(cut); },
+							2 => { m[0] = g.u64() as u8; },
+							_ => { let l = g.below(19); m = (0..l).map(|_| g.byte()).collect(); },
+						}
+						dec_width(ctx, w, &m);
+					}
+				}
+			},
+		}
+	}
+}
